@@ -22,7 +22,7 @@ let eval (input : Sx.t) (obs : Sx.t) : Sx.t list * bool * bool * string =
   let show r = (match r with
     | SPass -> Sx.L [Sx.A "pass"; sx_bool false]
     | SRedirect loc -> Sx.L [Sx.A "redirect"; sx_str loc; sx_bool false]
-    | SServe (id, _) -> Sx.L [Sx.A "serve"; sx_int (int_of_nat id); hdrs]
+    | SServe (id, _) -> Sx.L [Sx.A "serve"; sx_int (int_of_nat id); hdrs; sx_bool true]   (* with the file's own Last-Modified *)
     | SNotModified _ -> Sx.L [Sx.A "notmodified"]) in
   ignore head;
   let r1 = static_decide root dir o m p false in
